@@ -207,13 +207,18 @@ CLAIMED = {
         "saved handler goes back exactly once (main thread) and is forgotten, nothing is installed otherwise. PipeChannel.close_writer / close_reader / close: an end is "
         "forgotten and closed exactly once if it was open, never otherwise (so a recycled descriptor number is never closed by mistake); SubprocSpec.close releases all five "
         "handles, closes every channel once in order and forgets them (idempotent). "
-        "CommandPipeline._raise_subproc_error hands the terminal back exactly once before raising and not at all otherwise. Bounded stand-in "
+        "CommandPipeline._raise_subproc_error hands the terminal back exactly once before raising and not at all otherwise. cmds_to_specs (handler alone, try-body abstracted to `anything may happen "
+        "and raise`): whatever fails while the stages are built and wired, every stage built so far is closed exactly once, in order, before the error escapes (loop invariant); nothing is closed on success. "
+        "readers.safe_fdclose: never closes descriptors 0-2 or the shell's own sys.std* streams, never closes a handle its cache records as closed (recycled numbers), closes at most the one handle "
+        "given, swallows a failing close; CommandPipeline._safe_close never closes an integer descriptor (PipeChannel owns them); CommandPipeline._end: the two closing steps and `ended` sit in a finally - on EVERY exit "
+        "of the drain (return, exception, KeyboardInterrupt) the last stage is closed once, the earlier ones unless the reader already did, and the pipeline is marked ended; end() ends once and returns the "
+        "terminal once, and does nothing for an ended pipeline. Bounded stand-in "
         "(not proved): 20 command shapes x 3 repetitions in a real headless session - descriptors, children, threads, cwd, std streams and the "
         "SIGINT handler before/after.",
    note="KNOWN FINDINGS (recorded, native check): `echo hi | nonexistent` leaves the started earlier stage's pipe ends and an unreaped child; an alias in a "
         "non-last stage leaves its SIGINT handler installed; `yes | cat | head -n 1` can leave an unreaped child (timing). Unverified: terminal "
         "ownership on a real tty, safe_fdclose's handle cache, proxies' _restore_sigint / _close_devnull, jobs.wait_for_active_job "
-        "reaping, cmds_to_specs' except-BaseException close (loop abstracted in C07), reader/closer thread schedules, Windows. ASSUMED: set-up "
+        "reaping, _close_prev_procs / _close_proc bodies (ASSUMED not to raise in _end's contract), reader/closer thread schedules, Windows. ASSUMED: set-up "
         "statements of PopenThread.__init__ other than the spawn do not raise once handlers are installed. Trusted: pyvc engine + models + z3/cvc5.",
    design="§3 C09"),
  "C06": dict(
@@ -241,13 +246,17 @@ CLAIMED = {
         "execute, and None only when no directory has one; is_executable_in_posix is true exactly for an executable regular file; locate_file never searches $PATH "
         "for a name containing a separator and never the current directory for a bare name (is_explicit_path == '/' in name); the listing view "
         "_yield_accessible_unix_file_names yields exactly the names of the executable regular files of a directory (soundness and completeness invariants over "
-        "scandir), i.e. the same test as the lookup; clear_paths is resolve -> de-duplicate -> keep existing. Every function on the lookup path carries a frame "
+        "scandir), i.e. the same test as the lookup; clear_paths is resolve -> de-duplicate -> keep existing. The mtime-keyed CommandsCache behind `name in`, iteration and completion: _update_paths_cache (loop invariant): after it every "
+        "stat-able $PATH directory has an entry whose recorded mtime EQUALS the directory's current one and whose listing is the current listing, reporting `no change` means nothing changed, the order "
+        "is recorded; _update_aliases_cache records the hash of the current alias names; _update_and_check_changes runs BOTH updates whatever the first one says; update_cache hands out a table that is the "
+        "merge of the CURRENT listings, $PATH order and alias names - rebuilt whenever one of them changed, kept only when none did (callers checked against callee contracts). Every function on the lookup path carries a frame "
         "clause `no result cache` (a memoised helper used on the path is a failed obligation). Bounded stand-in (not proved): all histories of 3 (thorough 4) "
         "operations out of 15 (create / delete / chmod / mkdir / symlink-to-dir / broken link, $PATH reorder / duplicate / missing / symlinked entry, re-pointing a "
         "symlinked entry) with locate_executable, `in`, the listing and locate_binary compared with an independent POSIX search after every step.",
    note="KNOWN FINDING (recorded): chmod of a file is invisible to the mtime-keyed CommandsCache views. One genuine defect repaired (fix: b84b927: a reordered / "
-        "shortened $PATH left the merged command table stale). Unverified: what map / unique_everseen / filter compute in clear_paths and get_paths' double reversal "
-        "(bounded only), CommandsCache.update_cache / _update_paths_cache / _iter_binaries merging (bounded only), locate_relative_path, $PATHEXT / Windows, the opt-in "
+        "shortened $PATH left the merged command table stale). ASSUMED for the cache contracts: a change of a directory's content changes its mtime (the design assumption of the cache; the chmod finding is its "
+        "failure), no hash collision between alias-name sets, the persistent cache file is off. Unverified: what map / unique_everseen / filter compute in clear_paths and get_paths' double reversal "
+        "(bounded only), WHAT the two rebuild loops of update_cache / _iter_binaries merge (a ghost function here; bounded only), locate_relative_path, $PATHEXT / Windows, the opt-in "
         "stable-directory listing cache ($XONSH_COMMANDS_CACHE_READ_DIR_ONCE: documented staleness, assumed empty), SubprocSpec.resolve_binary_loc beyond C15's clause, "
         "file-system changes DURING one lookup. Trusted: pyvc engine + models + z3.",
    design="§3 C08"),
